@@ -1,6 +1,6 @@
 """C05 - a rule is valid iff every node its path selects satisfies its condition."""
 from engine.runner import mk_case
-from props.C03 import PARTS, DOCS
+from props.C03 import PARTS, DOCS_ALL as DOCS, DEEP_QUICK, DEEP_MORE
 
 U = "Union[int, bool, None, str]"
 
@@ -27,13 +27,13 @@ CONDS = {
 
 def BOUNDS(ctx):
     return {
-        "rules": "path skeletons of C03 (lengths 0-3) x value-kind condition trees (leaves with/without pre-processor, mapping "
+        "rules": "path skeletons of C03 (lengths 0-3; a deep family of 4-7 parts over a six-level document with five-item lists) x value-kind condition trees (leaves with/without pre-processor, mapping "
                  "callables, and/or/xor nesting, null); see props/C05.py",
         "documents": "C03's three heterogeneous skeletons; leaves u1 Union[int,bool,None,str], u2/u3 int",
         "symbolic": "document leaves, thresholds/arguments, primitive path parts",
         "reasons": "presence (>= 1 str per failure) is asserted, not wording; the real Condition.__repr__ runs; only the text "
                    "CrossHair renders for a symbolic atom is a constant (engine-side sym_repr stub)",
-        "outside": "wording of reasons; documents deeper than 3 levels",
+        "outside": "wording of reasons; documents deeper than 3 levels (6 in the deep family)",
     }
 
 
@@ -126,6 +126,15 @@ return ok
                     ("is_instance_float", "('or', V('is_instance', float), V('equal_to', None))"),
                     ("dtype_ne", "('and', leaf('value', 'dtype', 'not_equal_to', float), V('truthy'))")]:
         out.append(twin_case(cid, ct, L))
+    # deep family: rule paths of 4-7 parts over C03's six-level document with five-item lists
+    deep = [(DEEP_QUICK[0], "gt"), (DEEP_QUICK[1], "xor"), (DEEP_QUICK[2], "gt"), (DEEP_QUICK[3], "truthy"), (DEEP_QUICK[5], "eq")]
+    if not ctx.quick:
+        conds = ["gt", "isdict", "len", "dtype", "or", "nest", "keys", "null", "andnull", "eq"]
+        deep += [(sh, conds[(i + k) % len(conds)]) for i, sh in enumerate(DEEP_QUICK + DEEP_MORE) for k in (0, 3, 7)]
+    for sh, c in dict.fromkeys(deep):
+        case = rule_case(sh, c, "d6", L, intdoc=not ctx.quick and sh.count("X") >= 3)
+        case["id"] = case["id"].replace("c05.rule.", "c05.ruledeep.")
+        out.append(case)
     if ctx.quick:
         for sh, c, d in QUICK:
             out.append(rule_case(sh, c, d, L))
